@@ -497,12 +497,13 @@ uint StringDictionaryPFC::searchPrefix(uchar **ptr, uint scanneable,
       break;
     else {
       id++;
+      // No string in the bucket is prefixed by str
       if ((cmp > 0) || (id > scanneable))
-        break;
+        return NORESULT;
 
       *ptr += VByte::decode(&sharedPrev, *ptr);
       if (sharedPrev < sharedCurr)
-        break;
+        return NORESULT;
       decodeNextString(ptr, sharedPrev, decoded, decLen);
     }
   }
